@@ -96,6 +96,32 @@ def run(ck, P):
         kt = comparator_key_type(f)
         ck.need(kt is not None, "cannot determine the key type comparator %s expects" % name)
         ktype[name] = kt
+    # the comparator bound for T reads the alternative of the source union that the key builders fill for T (every comparator now takes
+    # an ev_src_t, so the static key type no longer tells two table rows apart)
+    srec = P.record("ev_src_t")
+    ALTS = {x["name"] for x in srec["fields"] if x.get("t", "").endswith("_src_t") and x.get("off") == 0}
+    ck.need(len(ALTS) >= 7, "ev_src_t no longer overlays the per-kind sources")
+
+    def alts_in(evs):
+        return {n["field"] for ev in evs for n in lm.walk(ev.e) if isinstance(n, dict) and n.get("k") == "member" and n.get("field") in ALTS}
+    builders = [b for b in (P.fn("deregister_mod_src", SRC, required=False), P.fn("create_src", SRC, required=False))
+                if b is not None and any(p_["name"] == "type" for p_ in b.params)]
+    ck.need(builders, "no key builder switching on the source type found (deregister_mod_src / create_src)")
+    for tv in sorted(tname):
+        filled = set()
+        for b in builders:
+            ck.analysed(b)
+            for path in b.paths(prune=False):
+                feas, _env, _a, evs = rules.simulate(b, path, preset={"type": tv})
+                if feas:
+                    filled |= alts_in(evs)
+        cf = P.fn(cmps[tv], SRC)
+        reads = alts_in(cf.events())
+        ck.ob("C09.1-CMP-KEYTYPE", "%s:src_cmp_map[%s]=%s reads the alternative filled for that kind" % (SRC, tname[tv][11:], cmps[tv]),
+              bool(reads) and bool(filled) and reads <= filled,
+              "%s compares %s; keys of kind %s are built in %s" % (cmps[tv], sorted(reads), tname[tv], sorted(filled))
+              + ("" if reads <= filled else ": the set of that kind is ordered by bytes its keys never set (another kind's comparator sits in this row of "
+                 "src_cmp_map) — registered sources are not found again, distinct ones collide"))
     sites = []   # (event, [(T, key_type_string, origin)])
     for ev in P.calls_to({"m_bst_insert", "m_bst_remove", "m_bst_find"}):
         a0 = strip(ev.args[0])
@@ -421,6 +447,22 @@ def run(ck, P):
               "deregistration demands of the key no more (%s) than registration did (%s)" % (sorted(kb), sorted(ka)) if kb <= ka else
               "%s checks the key with %s, %s with %s: a key accepted by one is refused by the other (a registered source that can never be deregistered, or the "
               "reverse)" % (f.name, sorted(ka), g.name, sorted(kb)))
+
+        # ... and deregistration looks only at what identifies the source: a key-only argument (the documented way to deregister) leaves
+        # every other field of the descriptor unset
+        inner = [c for c in g.calls("deregister_mod_src") if cval(c.args[1]) is not None]
+        if inner and cval(inner[0].args[1]) < len(cmps):
+            cf = P.fn(cmps[cval(inner[0].args[1])], SRC)
+            keyf = {n["field"] for ev in cf.events() for x_ in (ev.e, ev.rhs if ev.kind in ("decl", "assign") else None) if x_ is not None
+                    for n in lm.walk(x_) if isinstance(n, dict) and n.get("k") == "member"
+                    and any(("%s." % a_) in S(n) or ("%s->" % a_) in S(n) for a_ in ALTS)}
+            gkn = g.params[1]["name"]
+            asked = {fld for gd in rules.bailouts(g) for (a_, _p) in gd.cont_atoms for fld in re.findall(r"\b%s->(\w+)" % re.escape(gkn), a_)}
+            extra = asked - keyf
+            ck.ob("C09.9-PASS-THROUGH", g.site("looks only at key fields"), not extra,
+                  "%s tests %s of its argument; sources of this kind are identified by %s (%s)%s"
+                  % (g.name, sorted(asked), sorted(keyf - ALTS), cf.name, "" if not extra else ": a deregistration by key alone — "
+                     "a descriptor carrying just the identifying field(s) — is refused because of %s, which plays no part in finding the source" % sorted(extra)))
 
     # ------------------------------------------------------------------ 8. library-internal sources have a key space of their own
     keyspace_obligations(ck, P, X, "C09.8-INTERNAL-KEYSPACE", cmps, E)
